@@ -33,6 +33,15 @@ CHECKS = {
          "Order-key monotonicity and query agreement with the re-parsed serialization are evaluated in every reached state of the bounded search and attributed to the transition that breaks them.",
          "Positions are compared on a walk that merges adjacent Text nodes and drops empty ones (what a re-parse produces); positional queries are compared only in states without adjacent/empty Text nodes; states whose serialization does not re-parse are C15's concern.",
          "DESIGN.md §5 C14"),
+
+ "C15": ("explicit-state BFS over creation / attachment / data-editing histories with markup-significant string pieces; after every successful state-changing call the serialization is re-parsed and compared with what the DOM reports",
+         "Every call of the alphabet (factories with every name and data string, append under every attached element, attribute and value setters, append/insert/delete/set data with every offset and count, split_text) is applied in every reachable state up to the depth bound, starting from documents whose nodes hold the first half of a forbidden sequence; success must leave a document whose compact serialization parses completely and reports the same names, values and data.",
+         "Content comparison is by mc/src/checks/c15.rs content_dump (adjacent Text merged, empty Text dropped); detached nodes are judged once attached; panics in factories are C13's.",
+         "DESIGN.md §5 C15"),
+ "C16": ("explicit-state BFS over character-data call histories with every offset/count in 0..=len+2 and usize::MAX against a Vec<char> reference model; length() cross-checked after every call; merged-text view read-only stage",
+         "Every character-data operation with every offset, count and argument string of the alphabet is applied to text, attribute-text, comment and CDATA nodes holding ASCII, multi-byte, astral and combining characters in every reachable state up to the depth bound; result, successor data, exception class, atomic failure and absence of panics are compared with the reference.",
+         "Trusts the DOM Level 1 reading in mc/src/model/dom.rs (offset > length: index-size; count past the end: clipped); argument strings hold no markup characters.",
+         "DESIGN.md §5 C16"),
  # id: (technique, level text, level note, design_ref)
  "C18": ("total enumeration of all 1,114,112 scalar values + bounded-exhaustive name strings (len<=3/4 over 30 class representatives) in 8 syntactic positions, against transcribed tables",
          "Every Unicode scalar value is classified by the five public predicates and compared with tables transcribed from the Recommendation (complete, no bound); every short string over class representatives and range boundaries is offered as a name in every syntactic position and accept/reject compared with reference Name/NCName/QName matchers.",
